@@ -60,6 +60,8 @@ def arg_assign(rng, opts):
             out.append("%s=%s" % (o, rng.choice(SCALARS[o])))
         elif o == "keepalive":
             out.append("keepalive=%s" % rng.choice(["1", "6", "901"]))           # numeric: a value the file assignments never use
+        elif o in ("ifup", "ifdown", "device_path", "statsd_prefix", "user") and rng.chance(1, 4):
+            out.append("%s=" % o)                  # an EMPTY value on the command line is a value too: it replaces the file's
         elif o in OPTIONALS:
             out.append("%s=%s" % (o, rng.choice(OPTIONALS[o]) + "A"))
         elif o in LISTS:
